@@ -60,7 +60,8 @@ def cases(tier, seed, info):
     # code -> spec direction: random sequences on random trees
     m = 40 if tier == 'quick' else 6000
     kinds = ['list', 'all', 'count', 'plid', 'src', 'srcex', 'id', 'bmcid', 'listhex', 'allrev', 'listext',
-             'delete', 'delete', 'deleteall', 'json', 'jsonout', 'jsonclean', 'file', 'fileclean', 'filehex',
+             'delete', 'delete', 'deleteall', 'json', 'jsonout', 'jsonclean', 'jsoncleanext', 'jsoncleanext', 'jsonext',
+             'file', 'fileclean', 'filehex',
              'list+deleteall', 'count+delete', 'deletebadid', 'all+deleteall', 'plid+delete']
     tops = ['p1', 'p1b', 'p2', 'p3', 'j1', 'o1']
     for k in range(m):
@@ -265,6 +266,9 @@ def argv_for(c, root, names, rng):
         'delete': base + ['-d', idstr], 'deleteall': base + ['-D'],
         'json': base + ['-j'], 'jsonout': base + ['-j', '-o', os.path.join(root, 'out'), '-E'],
         'jsonclean': base + ['-j', '-o', os.path.join(root, 'out'), '-c'],
+        # restricted to one extension: the other files of the directory are none of this run's business
+        'jsoncleanext': base + ['-j', '-o', os.path.join(root, 'out'), '-c', '-e', rng.choice(['.pel', '.pel', '.bin', '.txt', ''])],
+        'jsonext': base + ['-j', '-e', rng.choice(['.pel', '.bin'])],
         'file': ['-f', f], 'fileclean': ['-f', f, '-c'], 'filehex': ['-f', f, '-x'],
         'list+deleteall': base + ['-l', '-D'], 'all+deleteall': base + ['-D', '-a', '-E'],
         'count+delete': base + ['-n', '-d', idstr], 'plid+delete': base + ['--plid', idstr, '-d', idstr],
